@@ -207,6 +207,8 @@ theorem mirror_step (cfg : Cfg) (s : St) (op : Op) (had : cfg.hasAdapter = true)
       | false => simpa using hm
       | true =>
         simp only [Bool.not_true, Bool.false_eq_true, ↓reduceIte]
+        split
+        · exact hm
         apply hf; apply hp
         have : l = (Spec.add (s.pol.get sec) r).1 := by rw [← add_refines, hadd]
         simp [applyACall, hm, this]
@@ -218,6 +220,8 @@ theorem mirror_step (cfg : Cfg) (s : St) (op : Op) (had : cfg.hasAdapter = true)
       | false => simpa using hm
       | true =>
         simp only [Bool.not_true, Bool.false_eq_true, ↓reduceIte]
+        split
+        · exact hm
         apply hf; apply hp
         have : l = rs.foldl (fun acc r => (Spec.add acc r).1) (s.pol.get sec) := by
           unfold Policy.addMany at hadd
@@ -346,6 +350,8 @@ theorem failed_call_silent (cfg : Cfg) (s : St) (op : Op)
       | false => intro _; exact ⟨rfl, rfl⟩
       | true =>
         simp only [Bool.not_true, Bool.false_eq_true, ↓reduceIte]
+        split
+        · intro _; exact ⟨rfl, rfl⟩
         intro hfail
         have := hfin _ _ _ _ _ hfail; simp at this
   | addMany sec rs =>
@@ -357,6 +363,8 @@ theorem failed_call_silent (cfg : Cfg) (s : St) (op : Op)
       | false => intro _; exact ⟨rfl, rfl⟩
       | true =>
         simp only [Bool.not_true, Bool.false_eq_true, ↓reduceIte]
+        split
+        · intro _; exact ⟨rfl, rfl⟩
         intro hfail
         have := hfin _ _ _ _ _ hfail; simp at this
   | remove sec r =>
@@ -453,13 +461,17 @@ theorem autosave_off_no_calls (cfg : Cfg) (s : St) (op : Op)
     cases Policy.add none (s.pol.get sec) r with
     | mk l ok => cases ok <;> simp only [Bool.not_false, Bool.not_true, Bool.false_eq_true, ↓reduceIte]
                  · exact ⟨by trivial, by trivial⟩
-                 · exact hf _ _ _ _ _ (hp { s with pol := s.pol.set _ l } _ _ rfl rfl rfl)
+                 · split
+                   · exact ⟨by trivial, by trivial⟩
+                   · exact hf _ _ _ _ _ (hp { s with pol := s.pol.set _ l } _ _ rfl rfl rfl)
   | addMany sec rs =>
     simp only [step]
     cases Policy.addMany none (s.pol.get sec) rs with
     | mk l ok => cases ok <;> simp only [Bool.not_false, Bool.not_true, Bool.false_eq_true, ↓reduceIte]
                  · exact ⟨by trivial, by trivial⟩
-                 · exact hf _ _ _ _ _ (hp { s with pol := s.pol.set _ l } _ _ rfl rfl rfl)
+                 · split
+                   · exact ⟨by trivial, by trivial⟩
+                   · exact hf _ _ _ _ _ (hp { s with pol := s.pol.set _ l } _ _ rfl rfl rfl)
   | remove sec r =>
     simp only [step]
     cases Policy.remove (s.pol.get sec) r with
